@@ -11,7 +11,8 @@
 (* Layout mode (C05): a statement is a skeleton - a sequence of token kinds *)
 (* - and a LAYOUT assigns a gap class to every token boundary and a letter  *)
 (* case to every keyword:                                                    *)
-(*   Place(g, c)   write token i in case c followed by gap g                 *)
+(*   Odd(k,w,v)    make one non-canonical choice: gap v after token k, or    *)
+(*                 case v for keyword k (a layout = its odd choices)         *)
 (* Literal mode (C07): the content of one quoted literal is a sequence of    *)
 (* character classes:                                                        *)
 (*   Char(c)       append one character of class c to the literal           *)
@@ -22,7 +23,8 @@
 (***************************************************************************)
 EXTENDS Naturals, Sequences, FiniteSets, TLC, Json
 
-CONSTANTS Skeleton,    \* Seq of token kinds: kw, kwdir (ASC/DESC), id, ty, lit, num, lp, rp, comma, dot, semi, eq, stmtword
+CONSTANTS Skeletons,   \* Seq of skeletons; a skeleton is a Seq of token kinds: kw, kwdir (ASC/DESC), kwcs, id, ty, lit, num, lp, rp, comma, dot,
+                       \* semi, eq, stmtword (a statement-level word not starting a statement), stmtend (a token ending a statement inside a script)
           Gaps,        \* gap classes usable: sp (one space, canonical), sp3, tab, nl, crlf, blank (empty line), none
           Cases,       \* cases usable for keywords: upper, lower, mixed
           CaseBase,    \* the case every keyword has unless chosen otherwise (a choice differing from it counts as odd)
@@ -32,53 +34,62 @@ CONSTANTS Skeleton,    \* Seq of token kinds: kw, kwdir (ASC/DESC), id, ty, lit,
           Mode,        \* "layout" | "literal"
           WithHist
 
-VARIABLES i,        \* next token to place (layout mode)
-          gaps,     \* Seq of gap classes chosen so far (gaps[k] follows token k)
-          cases,    \* Seq of cases chosen so far ("-" for non-keywords)
-          odd,      \* non-canonical choices so far
-          toks,     \* what the intended scanner yields: Seq of <<kind, index>>
+VARIABLES sk,       \* which skeleton is being laid out
+          odds,     \* the non-canonical choices of the layout, in source order: Seq([pos, what ("case" | "gap"), val])
           lit,      \* literal mode: the classes written so far
           scanned   \* literal mode: what the intended scanner reports for the literal
-vars == <<i, gaps, cases, odd, toks, lit, scanned>>
+vars == <<sk, odds, lit, scanned>>
+Skeleton == Skeletons[sk]
 
 Punct == {"lp", "rp", "comma", "semi"}
 NLGaps == {"nl", "crlf", "blank"}
-IsKw(k) == k \in {"kw", "kwdir", "kwcs", "stmtword"}
+\* keyword kinds on which the pinned tree is recorded to be case-sensitive (known findings): the kind is the deviation tag
+DevCaseKinds == {"kwdev_dir", "kwdev_autoinc", "kwdev_clustered", "kwdev_key"}
+IsKw(k) == k \in {"kw", "kwdir", "kwcs", "stmtword"} \cup DevCaseKinds
 
-Init == i = 1 /\ gaps = <<>> /\ cases = <<>> /\ odd = 0 /\ toks = <<>> /\ lit = <<>> /\ scanned = <<>>
+Init == sk \in (IF Skeletons = <<>> THEN {0} ELSE DOMAIN Skeletons) /\ odds = <<>> /\ lit = <<>> /\ scanned = <<>>
+
+\* the layout the choices stand for: every boundary has the canonical gap, every keyword the base case, except where chosen
+Chosen(k, what) == {i \in DOMAIN odds : odds[i].pos = k /\ odds[i].what = what}
+gaps == [k \in DOMAIN Skeleton |-> IF Chosen(k, "gap") = {} THEN "sp" ELSE odds[CHOOSE i \in Chosen(k, "gap") : TRUE].val]
+cases == [k \in DOMAIN Skeleton |-> IF ~IsKw(Skeleton[k]) THEN "-"
+                                     ELSE IF Chosen(k, "case") = {} THEN CaseBase ELSE odds[CHOOSE i \in Chosen(k, "case") : TRUE].val]
+\* what the intended (quote-aware) scanner yields for that layout: the tokens, whatever their case and whatever separates them
+toks == [k \in DOMAIN Skeleton |-> <<Skeleton[k], k>>]
 
 \* the domain of C05: `none` only next to punctuation; no line break directly before a statement-level word that does not
 \* start the statement; the statement terminator stays at the end of its line
 GapOK(g, k) ==
     /\ g = "none" => (Skeleton[k] \in Punct \/ (k < Len(Skeleton) /\ Skeleton[k + 1] \in Punct))
     /\ (g \in NLGaps /\ k < Len(Skeleton)) => Skeleton[k + 1] # "stmtword"
-    /\ k = Len(Skeleton) => g = "sp"
-    /\ (k + 1 = Len(Skeleton) /\ Skeleton[k + 1] = "semi") => g \in {"sp", "none", "sp3"}
+    /\ k < Len(Skeleton)
+    /\ Skeleton[k] # "stmtend"                              \* the line break after a statement's `;` is not a gap between its tokens
+    /\ (k + 1 = Len(Skeleton) /\ Skeleton[k + 1] = "semi") => g \in {"none", "sp3"}
 
-Place(g, c) ==
-    /\ Mode = "layout" /\ i <= Len(Skeleton)
-    /\ g \in Gaps /\ GapOK(g, i)
-    /\ IF IsKw(Skeleton[i]) THEN c \in Cases ELSE c = "-"
-    /\ LET o == (IF g # "sp" THEN 1 ELSE 0) + (IF c \notin {CaseBase, "-"} THEN 1 ELSE 0) IN
-       /\ odd + o <= MaxOdd /\ odd' = odd + o
-    /\ gaps' = Append(gaps, g) /\ cases' = Append(cases, c)
-    /\ toks' = Append(toks, <<Skeleton[i], i>>)         \* the token, whatever its case and whatever surrounds it
-    /\ i' = i + 1
-    /\ UNCHANGED <<lit, scanned>>
+InOrder(k, what) == IF Len(odds) = 0 THEN TRUE
+                    ELSE LET l == odds[Len(odds)] IN l.pos < k \/ (l.pos = k /\ l.what = "case" /\ what = "gap")
+
+Odd(k, what, v) ==
+    /\ Mode = "layout" /\ Len(odds) < MaxOdd /\ k \in DOMAIN Skeleton /\ InOrder(k, what)
+    /\ IF what = "gap" THEN v \in Gaps \ {"sp"} /\ GapOK(v, k)
+       ELSE IsKw(Skeleton[k]) /\ v \in Cases \ {CaseBase}
+    /\ odds' = Append(odds, [pos |-> k, what |-> what, val |-> v])
+    /\ UNCHANGED <<sk, lit, scanned>>
 
 Char(c) ==
     /\ Mode = "literal" /\ Len(lit) < MaxLit /\ c \in LitClasses
     /\ lit' = Append(lit, c)
     /\ scanned' = Append(scanned, c)                     \* inside quotes every character is copied verbatim
-    /\ UNCHANGED <<i, gaps, cases, odd, toks>>
+    /\ UNCHANGED <<sk, odds>>
 
-Next == (\E g \in Gaps, c \in Cases \cup {"-"} : Place(g, c)) \/ (\E c \in LitClasses : Char(c))
+Next == (\E k \in 1..(IF Mode = "layout" THEN Len(Skeleton) ELSE 0), what \in {"case", "gap"}, v \in Gaps \cup Cases : Odd(k, what, v))
+        \/ (\E c \in LitClasses : Char(c))
 Spec == Init /\ [][Next]_vars
 -----------------------------------------------------------------------------
-Done == IF Mode = "layout" THEN i > Len(Skeleton) ELSE Len(lit) >= 1
+Done == IF Mode = "layout" THEN TRUE ELSE Len(lit) >= 1
 \* C05
-GapIrrelevant == toks = [k \in 1..Len(toks) |-> <<Skeleton[k], k>>]
-CaseBlind == \A k \in DOMAIN toks : toks[k][1] = Skeleton[k]
+GapIrrelevant == Mode = "layout" => toks = [k \in DOMAIN Skeleton |-> <<Skeleton[k], k>>]
+CaseBlind == Mode = "layout" => \A k \in DOMAIN Skeleton : toks[k][1] = Skeleton[k]
 \* C07
 LiteralVerbatim == scanned = lit
 
@@ -92,6 +103,7 @@ DevCharsetCase == \E k \in DOMAIN cases : Skeleton[k] = "kwcs" /\ cases[k] = "mi
 \* (DevDirCase and DevCharsetCase were deviations of the pinned tree; both were repaired by fix: commits and are no longer
 \*  part of the as-built deviation set: a lower-case asc / mixed-case Charset layout falls under the bare invariants again)
 LayoutDev == (IF DevNLBeforeLiteral THEN {"nl_before_literal"} ELSE {})
+             \cup {Skeleton[k] : k \in {j \in DOMAIN cases : Skeleton[j] \in DevCaseKinds /\ cases[j] # CaseBase}}
 
 Has(c) == \E k \in DOMAIN lit : lit[k] = c
 Pair(a, b) == \E k \in 1..(Len(lit) - 1) : lit[k] = a /\ lit[k + 1] = b
@@ -104,7 +116,7 @@ LitDev == (IF Has("comma") THEN {"lit_comma"} ELSE {}) \cup (IF Has("lpar") \/ H
           \cup (IF Has("nl") THEN {"lit_nl"} ELSE {}) \cup (IF Has("copen") \/ Has("cclose") THEN {"lit_comment_marker"} ELSE {})
 
 Emit == (WithHist /\ Done) =>
-          PrintT(<<"BEH", ToJson(IF Mode = "layout" THEN [gaps |-> gaps, cases |-> cases, dev |-> LayoutDev]
+          PrintT(<<"BEH", ToJson(IF Mode = "layout" THEN [sk |-> sk, odds |-> odds, dev |-> LayoutDev]
                                  ELSE [lit |-> lit, dev |-> LitDev])>>)
 View == vars
 =============================================================================
